@@ -138,17 +138,31 @@ def classify(case, reason, detail, obs):
             o = ops[j]
             if o["op"] != "branch" or o["a"] not in passk:
                 continue
+            # declared types adjoining, through calls made before j, the group of pass-through nodes that a belongs to
+            before = [ops[i] for i in ok if i < j]
+            group, grew = {o["a"]}, True
+            while grew:
+                grew = False
+                for e in before:
+                    pairs = [(e["a"], e["b"])] if e["op"] == "edge" else [(e["a"], x) for x in e["ends"]] if e["op"] == "branch" else []
+                    for x, y in pairs:
+                        for u, v in ((x, y), (y, x)):
+                            if u in group and v in passk and v not in group:
+                                group.add(v)
+                                grew = True
             around = set()
-            for i in ok:
-                if i >= j:
-                    break
-                e = ops[i]
-                if e["op"] == "edge" and e["b"] == o["a"]:
-                    around.add(decl_out.get(e["a"]))
-                elif e["op"] == "edge" and e["a"] == o["a"]:
-                    around.add(decl_in.get(e["b"]))
-                elif e["op"] == "branch" and o["a"] in e["ends"]:
-                    around.add(decl_out.get(e["a"]))
+            for e in before:
+                if e["op"] == "edge":
+                    if e["b"] in group:
+                        around.add(decl_out.get(e["a"]))
+                    if e["a"] in group:
+                        around.add(decl_in.get(e["b"]))
+                elif e["op"] == "branch":
+                    if e["a"] in group:
+                        around.add(e["t"])
+                        around.update(decl_in.get(x) for x in e["ends"])
+                    if any(x in group for x in e["ends"]):
+                        around.add(decl_out.get(e["a"]))
             if any(t is not None and t != o["t"] for t in around):
                 return "branch-retypes-inferred-passthrough"
         return reason
